@@ -379,3 +379,30 @@ fn detect_trials_get_rewound_reader() {
 	match h.borrow_mut() { Ref::Reader(rd) => assert!(rd.prefix.position() == 0), Ref::Slice(b) => assert!(b.len() == off) }
 }
 
+
+/// Taking ownership after ANY history (C05 / C09): fully buffered => Input::Slice with the whole capture;
+/// nothing captured and source not exhausted => the BARE source (the very same box: no capture wrapper survives
+/// detection); otherwise a new reader (captured prefix chained in front of the source).  Decided without reading
+/// through Box<dyn Read> (which CBMC cannot afford); the chain's behaviour is FusedReader's contract plus std's Chain.
+#[kani::proof]
+#[kani::unwind(6)]
+fn input_from_handle_decision() {
+	let (h, data, _len, off, eof) = any_handle::<4>();
+	let orig: *const u8 = match &h.0 { Source::Reader(g) => (&*g.0.source) as *const dyn Read as *const u8, Source::Slice(_) => std::ptr::null() };
+	let input = Input::from(h);
+	match &input {
+		Input::Slice(c) => {
+			assert!(eof, "a reader that is not exhausted must not be turned into a slice");
+			assert!(c.len() == off);
+			let mut i = 0; while i < off { assert!(c[i] == data[i]); i += 1; }
+			kani::cover!(off > 0);
+		}
+		Input::Reader(r) => {
+			assert!(!eof, "an exhausted reader must become a slice (no stale reader handed on)");
+			let now: *const u8 = (&**r) as *const dyn Read as *const u8;
+			if off == 0 { assert!(now == orig, "nothing was captured: the bare source must be handed on, without a wrapper"); kani::cover!(true, "bare source"); }
+			else { assert!(now != orig, "captured bytes must be replayed in front of the source"); kani::cover!(true, "prefix chained"); }
+		}
+	}
+	std::mem::forget(input);
+}
